@@ -1,5 +1,5 @@
 """C06 - Boolean operators follow FHIRPath three-valued logic for every operand form."""
-from lib import driver as D
+from lib import driver as D, machine as M
 
 MUTANTS = ["andFalseNeedsBoth", "orTrueNeedsBoth", "xorEmptyIsFalse", "impliesEmptyIsTrue"]
 
@@ -26,6 +26,8 @@ def run(ctx):
         corrupt_probe(ctx, obs)
     by_id = {o["id"]: o for o in obs}
     keys = [(o["cs"]["ctx"], o["cs"]["op"], o["cs"]["l"]["val"], o["cs"]["r"]["val"], o["out"]["k"]) for o in obs]
+    # programs of the whole abstract machine whose last step is one of this property's operations (lib/machine.py)
+    verdicts = M.extend(ctx, verdicts, by_id)
     return D.finish(ctx, verdicts, by_id, evaluations=3 * len(obs),
                     rule="exhaustive: every (context, operator, left form, right form) with form = value class x source kind "
                          "(28 expressible forms: true/false/empty/non-Boolean/multi-item/multi-item-of-Booleans x literal/element/computed/variable/function result; a multi-item literal cannot be written); distinct = (context, operator, value classes, outcome kind)",
